@@ -6,7 +6,6 @@ package props
 import (
 	"fmt"
 
-
 	"verif/internal/harness"
 	. "verif/internal/luaref"
 )
